@@ -39,7 +39,7 @@ struct Ctx { sum: Summary, shards: CoqShards, budget: usize, impl_bins: Vec<u64>
 impl Ctx {
     /// per-cell budget of Coq-evaluated cases (quick tier: about 1500 in total)
     fn room(&mut self, key: &'static str, force: bool) -> bool {
-        let cap = match key { "lockfree" => 380, "fixedcap" => 170, "bump" => 260, "five" => 300, "threadlocal" => 140, "tiered" => 110, "secure" => 110, _ => 0 }
+        let cap = match key { "lockfree" => 380, "fixedcap" => 170, "bump" => 260, "five" => 300, "threadlocal" => 140, "tiered" => 110, "secure" => 110, "mempool" => 30, _ => 0 }
                   * if self.thorough { 7 } else { 1 };
         let n = self.used.entry(key).or_insert(0);
         if force || (*n < cap && self.shards.len() < self.budget) { *n += 1; true } else { false }
@@ -430,12 +430,21 @@ impl Drop for SecPut { fn drop(&mut self) { self.h.clear(); } }
 
 // ---------------- MemoryPool / PooledBuffer / PooledVec ----------------
 enum BasicH { Raw(NonNull<u8>), Buf(PooledBuffer), Vecu(PooledVec<u64>) }
-struct BasicPut { h: HashMap<u64, BasicH>, pool: Option<MemoryPool>, chunk: usize, align: usize, mode: u64 }
+struct BasicPut { h: HashMap<u64, BasicH>, pool: Option<MemoryPool>, chunk: usize, align: usize, mode: u64,
+                  // model comparison (MemoryPool): chunk address -> serial, observation of the current op, of all ops
+                  serials: HashMap<usize, u64>, next: u64, pending: Vec<Option<i64>>, rec: Vec<Vec<Option<i64>>> }
 impl Put for BasicPut {
     fn alloc(&mut self, id: u64, size: usize, _align: usize) -> Option<Blk> {
         match self.mode {
-            0 => { let p = self.pool.as_ref().unwrap().allocate().ok()?; self.h.insert(id, BasicH::Raw(p));
-                   Some(Blk { addr: p.as_ptr() as usize, usable: self.chunk, mem: true }) }
+            0 => { let pool = self.pool.as_ref().unwrap();
+                   let hits = pool.stats().pool_hits;
+                   let p = match pool.allocate() { Ok(p) => p, Err(_) => { self.pending = vec![None, None]; return None; } };
+                   let hit = pool.stats().pool_hits != hits;
+                   let addr = p.as_ptr() as usize;
+                   let ser = if hit { self.serials.get(&addr).map(|&v| v as i64).unwrap_or(-1) } else { let n = self.next; self.next += 1; self.serials.insert(addr, n); n as i64 };
+                   self.pending = vec![Some(hit as i64), Some(ser)];
+                   self.h.insert(id, BasicH::Raw(p));
+                   Some(Blk { addr, usable: self.chunk, mem: true }) }
             1 => { let mut b = PooledBuffer::new(size).ok()?;
                    let blk = Blk { addr: b.as_mut_slice().as_mut_ptr() as usize, usable: b.len(), mem: true };
                    self.h.insert(id, BasicH::Buf(b)); Some(blk) }
@@ -445,11 +454,20 @@ impl Put for BasicPut {
         }
     }
     fn free(&mut self, id: u64) -> bool {
-        match self.h.remove(&id).unwrap() { BasicH::Raw(p) => self.pool.as_ref().unwrap().deallocate(p).is_ok(), _ => true }
+        match self.h.remove(&id).unwrap() {
+            BasicH::Raw(p) => { let pool = self.pool.as_ref().unwrap();
+                                let before = pool.stats().chunks;
+                                let ok = pool.deallocate(p).is_ok();
+                                let kept = pool.stats().chunks > before;
+                                if !kept { self.serials.remove(&(p.as_ptr() as usize)); }
+                                self.pending = vec![Some(kept as i64)];
+                                ok }
+            _ => true }
     }
     fn cfg_align(&self) -> usize { self.align }
     fn must_refuse(&self, size: usize) -> bool { self.mode == 1 && size > PoolConfig::large().chunk_size }
     fn effective(&self, size: usize) -> usize { match self.mode { 0 => self.chunk, 1 => size, _ => 8 } }
+    fn note(&mut self) { let p = std::mem::take(&mut self.pending); self.rec.push(p); }
 }
 impl Drop for BasicPut { fn drop(&mut self) {
     let hs: Vec<u64> = self.h.keys().copied().collect();
@@ -772,15 +790,24 @@ fn run_case(cx: &mut Ctx, c: &Value, force: bool) {
         "basic" => {
             let mode = u(c, "mode");
             let cell = ["MemoryPool", "PooledBuffer", "PooledVec"][mode.min(2) as usize];
-            cx.sum.eval(cell, &key, nontrivial); cx.sum.cell_status(cell, "S-only");
+            cx.sum.eval(cell, &key, nontrivial);
             let (chunk, align) = (u(c, "chunk") as usize, u(c, "align") as usize);
             let pool = if mode == 0 {
                 let cfg = match u(c, "preset") { 1 => PoolConfig::small(), 2 => PoolConfig::medium(), 3 => PoolConfig::large(), _ => PoolConfig::new(chunk, u(c, "maxchunks") as usize, align) };
                 match guarded(|| MemoryPool::new(cfg)) { Ok(Ok(p)) => Some(p), _ => { cx.sum.dist("pool_new_refused"); return; } }
             } else { None };
             let (chunk, align) = match &pool { Some(p) => (p.config().chunk_size, p.config().alignment), None => (chunk, 8) };
-            let mut put = BasicPut { h: HashMap::new(), pool, chunk, align, mode };
-            drive(cx, cell, c, &mut put, &ops);
+            let maxc = pool.as_ref().map(|p| p.config().max_chunks).unwrap_or(0);
+            if mode != 0 { cx.sum.cell_status(cell, "S-only"); }
+            let mut put = BasicPut { h: HashMap::new(), pool, chunk, align, mode, serials: HashMap::new(), next: 0, pending: vec![], rec: vec![] };
+            if drive(cx, cell, c, &mut put, &ops).is_some() && mode == 0 && put.rec.len() == ops.len() && cx.room("mempool", force) {
+                let mut cops = vec![]; let mut exp: Vec<String> = vec![];
+                for (o, r) in ops.iter().zip(put.rec.iter()) {
+                    match o[0] { 0 => cops.push("MAl".to_string()), 1 => cops.push(format!("MFr {}", o[1])), _ => continue }
+                    for x in r { exp.push(coq_oz(&x.map(|v| v as i128))); }
+                }
+                cx.shards.push(format!("XMp {} [{}] [{}]", maxc, cops.join("; "), exp.join("; ")), c.clone());
+            }
         }
         "tiered" => {
             let cell = "TieredMemoryAllocator";
